@@ -192,8 +192,9 @@ impl<'r> Gen<'r> {
     }
 
     fn err_leaf(&mut self) -> X {
-        match self.rng.below(7) {
+        match self.rng.below(8) {
             0 => X::bin(BinOp::Div, X::int(1), X::int(0)),
+            7 => X::un(UnOp::Week, X::int(100_000_000_000_000)),
             1 => X::Ref("nosuchref".into()),
             2 => X::Sym("nosuchsym".into()),
             3 => X::un(UnOp::Not, X::int(1)),
